@@ -241,6 +241,7 @@ def run(report, tier):
             tasks = [(be, k) for be in backends for k in ("generic", "temperature")]
             report.bounds.update({"temperature_box": "f64: a = 0 or 2^-400 <= |a| <= 2^400; decimal |a| <= 1e17", "pairs": "all 9 ordered unit pairs, round trips for the 6 proper pairs"})
             cands = pool.run(report, task, tasks)
+            pool.cross_check(report)
             E.native_confirm(report, "C14", cands, desc, oracle, probes=E.probe_amounts_1)
             fut.result()
     finally:
